@@ -372,3 +372,66 @@ def linalg_eigvals(a):
         c.assume(v > 0, internal=True)
         vs.append(SV(v))
     return SymArray(mkobj(vs), _F64)
+
+
+# --------------------------------------------------------------------------
+# scipy.interpolate.interp1d(kind='linear', fill_value='extrapolate') model
+# --------------------------------------------------------------------------
+class ContractViolation(Exception):
+    """the code under analysis called a stubbed library function outside that function's documented contract"""
+
+
+class SymInterp1d:
+    """piecewise-linear model: points sorted by x (unless assume_sorted), linear between neighbours,
+    linear extension of the end segments outside.  Fully concrete data is delegated to scipy."""
+
+    def __init__(self, x, y, kind="linear", axis=-1, copy=True, bounds_error=None, fill_value=numpy.nan, assume_sorted=False):
+        import scipy.interpolate
+        self.real = None
+        if not symnp.has_sym(x) and not symnp.has_sym(y):
+            xr = symnp.unbox(x) if isinstance(x, SymArray) else numpy.asarray(x)
+            yr = symnp.unbox(y) if isinstance(y, SymArray) else numpy.asarray(y)
+            self.real = scipy.interpolate.interp1d(xr, yr, kind=kind, fill_value=fill_value, assume_sorted=assume_sorted)
+            return
+        if kind != "linear" or not (isinstance(fill_value, str) and fill_value == "extrapolate"):
+            raise EngineUnsupported("interp1d model supports kind='linear', fill_value='extrapolate' only (got %r, %r)" % (kind, fill_value))
+        xs = list(raw(symnp._sa(x)).ravel())
+        ys = list(raw(symnp._sa(y)).ravel())
+        if len(xs) != len(ys):
+            raise ValueError("x and y arrays must be equal in length along interpolation axis.")
+        if len(xs) < 2:
+            raise ValueError("x and y arrays must have at least 2 entries")
+        if assume_sorted:
+            for a, b in zip(xs, xs[1:]):
+                if not bool(a <= b):
+                    raise ContractViolation("interp1d(assume_sorted=True) called with unsorted x")
+            order = list(range(len(xs)))
+        else:
+            order = symnp._stable_order(len(xs), lambda i, j: symnp._cmp_cells(xs[i], xs[j]))
+        self.x = [xs[i] for i in order]
+        self.y = [ys[i] for i in order]
+
+    def __call__(self, q):
+        if self.real is not None:
+            if isinstance(q, (SV, SymArray)):
+                raise EngineUnsupported("symbolic query on a concrete interp1d")
+            return self.real(q)
+        if isinstance(q, SymArray) or (isinstance(q, numpy.ndarray) and q.ndim > 0):
+            qs = symnp._sa(q)
+            out = [self._one(c) for c in raw(qs).ravel()]
+            return SymArray(mkobj(out, qs.shape), _F64)
+        if isinstance(q, numpy.generic):
+            q = q.item()
+        return self._one(q)
+
+    def _one(self, q):
+        x, y = self.x, self.y
+        n = len(x)
+        k = n - 2
+        for i in range(1, n - 1):
+            if bool(q <= x[i]):
+                k = i - 1
+                break
+        x0, x1, y0, y1 = x[k], x[k + 1], y[k], y[k + 1]
+        slope = sym.sv_div(sym.to_real(y1) - sym.to_real(y0), sym.to_real(x1) - sym.to_real(x0))
+        return sym.to_real(y0) + (sym.to_real(q) - sym.to_real(x0)) * slope
